@@ -3,12 +3,17 @@
    handles and records what every call returned; [check_case] runs the same
    history on the model ([run_op] of Sets/AnySet.v) and compares every
    output. Where Go's map iteration order shows in an output (Slice, String,
-   Range, CartesianProduct) the order the real code used is read off the
-   observation and handed to the model as its visit order, completed by the
-   rest of the universe and with repetitions removed (so a value enumerated
-   twice or a member left out by the implementation is a mismatch); where it
-   does not show, the model runs with the universe as visit order (the
-   theorems say the outputs do not depend on it). Definitions only. *)
+   Range) the order the real code used is read off the observation and handed
+   to the model as its visit order, completed by the rest of the universe and
+   with repetitions removed (so a value enumerated twice or a member left out
+   by the implementation is a mismatch); where it does not show, the model
+   runs with the universe as visit order (the theorems say the outputs do not
+   depend on it). The pairs of CartesianProduct are compared as a multiset and
+   the text of String on the integers it contains (the property fixes neither
+   the order of the pairs nor the format of the text). For the calls that are
+   one sync2.Map call, the Map paths the real code took (hook labels) are
+   compared with what the model state predicts ([path_of]).
+   Definitions only. *)
 From Typ Require Export Lib.Base Sets.AnySet.
 Local Open Scope Z_scope.
 
@@ -32,7 +37,7 @@ Inductive cop :=
 
 Record case := Case {
   c_universe : list Z;            (* every value the history mentions, once *)
-  c_ops : list (cop * out)        (* the calls and what the real code returned *)
+  c_ops : list (cop * out * Z)    (* the calls, what the real code returned, the Map paths taken (-1: not recorded) *)
 }.
 
 (* keep the first occurrence of every value *)
@@ -75,23 +80,79 @@ Definition to_op (u : list Z) (c : cop) (observed : out) : op :=
 
 Definition pairZ_eqb (a b : Z * Z) : bool := Z.eqb a.1 b.1 && Z.eqb a.2 b.2.
 
+(* CartesianProduct: the property fixes the pairs, not their order *)
+Definition pair_leb (a b : Z * Z) : bool := (a.1 <? b.1) || (Z.eqb a.1 b.1 && (a.2 <=? b.2)).
+Fixpoint insert_pair (x : Z * Z) (l : list (Z * Z)) : list (Z * Z) :=
+  match l with [] => [x] | y :: l' => if pair_leb x y then x :: l else y :: insert_pair x l' end.
+Definition sort_pairs (l : list (Z * Z)) : list (Z * Z) := fold_right insert_pair [] l.
+Definition pairs_perm_eqb (x y : list (Z * Z)) : bool :=
+  list_eqb pairZ_eqb x y || list_eqb pairZ_eqb (sort_pairs x) (sort_pairs y).
+
+(* Outputs are compared on what the property fixes: everything exactly, except
+   that the pairs of CartesianProduct are compared as a multiset (same pairs,
+   same multiplicities, any order) and the text of String on the values it
+   lists, in the order it lists them (braces and separators are not part of
+   the property; the harness extracts the integers). *)
 Definition out_eqb (a b : out) : bool :=
   match a, b with
   | VUnit, VUnit => true
   | VBool x, VBool y => Bool.eqb x y
   | VInt x, VInt y => Z.eqb x y
   | VList x, VList y => list_eqb Z.eqb x y
-  | VToks x, VToks y => list_eqb tok_eqb x y
-  | VPairs x, VPairs y => list_eqb pairZ_eqb x y
+  | VToks x, VToks y => list_eqb Z.eqb (tok_vals x) (tok_vals y)
+  | VPairs x, VPairs y => pairs_perm_eqb x y
   | _, _ => false
   end.
 
-Fixpoint check_ops (u : list Z) (hs : list anyset) (ops : list (cop * out)) : bool :=
+(* ---- which paths of sync2.Map a call takes (validation of the layout machine of Seq.v) ----
+   For the calls that are a single Map call on a sync2.Set (Has = Load, Add =
+   LoadOrStore, Remove = LoadAndDelete, Len/Slice/String/Range = Range) the
+   harness records, from the scheduling hooks of the verif build, whether the
+   call took the mutex (bit 1: Load.lock / LoadOrStore.lock / LoadAndDelete.lock
+   / Range.lock), promoted the dirty map (bit 2: miss.store / Range.promote) and
+   expunged a nil entry (bit 4: expunge.cas). [path_of] predicts the same three
+   facts from the model state BEFORE the call. -1 = not predicted / not recorded. *)
+Definition bits (lock promote expunge : bool) : Z :=
+  (if lock then 1 else 0) + (if promote then 2 else 0) + (if expunge then 4 else 0).
+Definition miss_promotes (s : mstate) : bool := negb (misses s + 1 <? dirty_len s).
+Definition has_nil_read (s : mstate) : bool :=
+  existsb (λ ke, match get_ent s ke.2 with PNil => true | _ => false end) (map_to_list (read_m s)).
+Definition path_of (hs : list anyset) (o : op) : Z :=
+  let on h (k : mstate -> Z) := match hs !! h with Some (AS s) => k s | _ => -1 end in
+  match o with
+  | OHas h key => on h (λ s,
+      match read_m s !! key with
+      | Some _ => 0
+      | None => if amended s then bits true (miss_promotes s) false else 0
+      end)
+  | ORemove h key => on h (λ s,
+      match read_m s !! key with
+      | Some _ => 0
+      | None => if amended s then bits true (miss_promotes (dirty_delete s key)) false else 0
+      end)
+  | OAdd h key => on h (λ s,
+      match read_m s !! key with
+      | Some e => match get_ent s e with PExpunged => bits true false false | _ => 0 end
+      | None =>
+          match dirty_lookup s key with
+          | Some _ => bits true (miss_promotes s) false
+          | None => bits true false
+                      (negb (amended s) && match dirty s with None => true | Some _ => false end && has_nil_read s)
+          end
+      end)
+  | OLen h _ | OSlice h _ | OString h _ | ORange h _ _ => on h (λ s, if amended s then 3 else 0)
+  | _ => -1
+  end.
+Definition path_ok (predicted observed : Z) : bool :=
+  (predicted <? 0) || (observed <? 0) || Z.eqb predicted observed.
+
+Fixpoint check_ops (u : list Z) (hs : list anyset) (ops : list (cop * out * Z)) : bool :=
   match ops with
   | [] => true
-  | (c, observed) :: ops' =>
-      match run_op hs (to_op u c observed) with
-      | Some (Ok (hs', v)) => out_eqb v observed && check_ops u hs' ops'
+  | (c, observed, paths) :: ops' =>
+      let o := to_op u c observed in
+      match run_op hs o with
+      | Some (Ok (hs', v)) => out_eqb v observed && path_ok (path_of hs o) paths && check_ops u hs' ops'
       | _ => false
       end
   end.
